@@ -68,7 +68,7 @@ Fixpoint run_ops (t : octree) (ops : list oc_op) : outcome (list oc_obs) :=
   | OPalette :: r =>
       let* p := build_palette t in let* o := run_ops t r in Ok (BPal p :: o)
   | ODigraph :: r =>
-      if has_zero_leaf t then Panic 1073
+      if has_zero_leaf t then Panic 1104
       else let* o := run_ops t r in Ok (BDig (digraph t) :: o)
   end.
 
